@@ -1,3 +1,4 @@
 -- root of the proof library: one module per property (theorems only) + helper lemmas
 import Proofs.C04
 import Proofs.C01
+import Proofs.C03
